@@ -162,6 +162,14 @@ ENUMS_STD = {
     "ControlFlow": ["Continue", "Break"],
     "Component": ["Prefix", "RootDir", "CurDir", "ParentDir", "Normal"],
     "Ordering": ["Less", "Equal", "Greater"],
+    "SeekFrom": ["Start", "End", "Current"],
+    "ErrorKind": ["NotFound", "PermissionDenied", "ConnectionRefused", "ConnectionReset", "HostUnreachable", "NetworkUnreachable",
+                  "ConnectionAborted", "NotConnected", "AddrInUse", "AddrNotAvailable", "NetworkDown", "BrokenPipe", "AlreadyExists",
+                  "WouldBlock", "NotADirectory", "IsADirectory", "DirectoryNotEmpty", "ReadOnlyFilesystem", "FilesystemLoop",
+                  "StaleNetworkFileHandle", "InvalidInput", "InvalidData", "TimedOut", "WriteZero", "StorageFull", "NotSeekable",
+                  "QuotaExceeded", "FileTooLarge", "ResourceBusy", "ExecutableFileBusy", "Deadlock", "CrossesDevices", "TooManyLinks",
+                  "InvalidFilename", "ArgumentListTooLong", "Interrupted", "Unsupported", "UnexpectedEof", "OutOfMemory", "InProgress",
+                  "Other", "Uncategorized"],
 }
 
 
@@ -196,6 +204,8 @@ class Executor:
         self._model_cache = {}
         self.flip_site = None  # planted mutant: negate the comparison at the k-th distinct static site
         self._cmp_sites = []
+        self.auto = None  # RiviaIndex: any callee that is rivia code runs from its MIR
+        self.drop_hook = None  # called for MIR `drop(place)` terminators: may return a (fn, args) to run
 
     # ---------------------------------------------------------------- solver-backed decisions
     def feasible(self, st, extra):
@@ -668,6 +678,14 @@ class Executor:
                     fr.locals[local] = v
                 st.frames.append(fr)
                 return
+        if self.auto is not None:
+            target = self.auto.resolve(callee)
+            if target is not None:
+                fr = Frame(target, dest, ret_block, cont)
+                for (local, _), v in zip(target.params, args):
+                    fr.locals[local] = v
+                st.frames.append(fr)
+                return
         if self.allow_uf:
             return self.deliver(st, self.on_uf(self, st, callee, list(args), ""), dest, ret_block, cont)
         raise Unsupported("no model / MIR body for function value `%s`" % callee)
@@ -706,6 +724,11 @@ class Executor:
             m = rx.search(callee)
             if m:
                 target = finder(self.mir, callee, m) if callable(finder) else self.mir.get(finder)
+                self.push_call(st, target, args, dest, tg.get("return"))
+                return
+        if self.auto is not None:
+            target = self.auto.resolve(callee)
+            if target is not None:
                 self.push_call(st, target, args, dest, tg.get("return"))
                 return
         if self.allow_uf:
@@ -773,7 +796,17 @@ class Executor:
             else:
                 raise Panic("MIR assert failed: " + msg)
         elif t.kind == "drop":
-            self.goto(st, t.data[1]["return"])
+            place, tg = t.data
+            if self.drop_hook is not None:
+                todo = self.drop_hook(self, st, place)
+                if todo is not None:
+                    fn, args = todo
+                    fr2 = Frame(fn, Place("_drop_scratch"), tg["return"])
+                    for (local, _), v in zip(fn.params, args):
+                        fr2.locals[local] = v
+                    st.frames.append(fr2)
+                    return
+            self.goto(st, tg["return"])
         elif t.kind == "unreachable":
             raise Unsupported("reached `unreachable` in %s %s" % (fr.fn.name, fr.block))
         else:
@@ -860,6 +893,12 @@ class Executor:
                     break
                 except Panic as p:
                     st.panic, st.done = p.msg, True
+                except Unsupported as e:
+                    if not getattr(e, "_stacked", False):
+                        e._stacked = True
+                        stack = " <- ".join("%s:%s" % (f.fn.name.split(">::")[-1][-40:], f.block) for f in reversed(st.frames[-6:]))
+                        e.args = (str(e.args[0]) + " [call stack: " + stack + "]",) + e.args[1:]
+                    raise
             if self.stats["paths"] > max_paths:
                 raise Unsupported("path budget exceeded (%d)" % max_paths)
 
@@ -867,7 +906,8 @@ class Executor:
         callee = term.data[1]
         r = self._model_cache.get(callee)
         if r is None:
-            r = any(rx.search(callee) for rx, _ in self.models) or not any(rx.search(callee) for rx, _ in self.inline)
+            r = any(rx.search(callee) for rx, _ in self.models) or not (
+                any(rx.search(callee) for rx, _ in self.inline) or (self.auto is not None and self.auto.resolve(callee) is not None))
             self._model_cache[callee] = r
         return r
 
